@@ -269,6 +269,7 @@ impl LangInterpreter for French {
                 } else {
                     ""
                 };
+                b.reset();
                 if previous_text != "numéro"
                     && self.apply(previous_text, &mut b).is_err()
                     && self.apply(next_text, &mut b).is_err()
